@@ -6,6 +6,8 @@
 //!         [and, for a subset, the real CLI binary: `nitrogql-cli generate` in a scratch project → `main.<ext>`],
 //!   (ii)  `print_js_for_operation_document(OperationJSPrinterOptions::from_config(..))` on the same document,
 //!   (iii) the loader's real `extern "C"` ABI: `load_config` + `initiate_task` + `get_required_files`/`load_file` + `emit_js`.
+//!         Every loader ABI call runs in a child process (`c14 --session-worker`, c14/session.rs): a panic inside an `extern "C"`
+//!         function aborts the process; a death is the O failure `loader-abort:<call>` with the case, and the run continues.
 //! The top-level statements of the three texts are extracted by a small TS/JS tokenizer.
 //! K: statements of each text == statements of the Lean model (`dts`, `js`, `loaderJs`) for the same abstract config/file.
 //! O: the property on the implementation — value exports of (i) ⊆ exports of (iii), same default, same document
